@@ -335,47 +335,41 @@ Section Out.
   Qed.
 
   (* ---------------------------------------------------------------- the reader never looks at the kernel queue it holds *)
-  Definition keq (k1 k2 : kst) : Prop :=
-    k_watches k1 = k_watches k2 /\ k_next_wd k1 = k_next_wd k2 /\ k_next_cookie k1 = k_next_cookie k2.
-
-  Lemma keq_refl k : keq k k. Proof. now repeat split. Qed.
+  Section Frame.
+    Variable R : kst -> kst -> Prop.
+    Hypothesis R_add : forall k1 k2 t p m, R k1 k2 ->
+      match kadd_watch k1 t p m, kadd_watch k2 t p m with
+      | Some (a, wa), Some (b, wb) => wa = wb /\ R a b
+      | None, None => True
+      | _, _ => False
+      end.
+    Hypothesis R_rm : forall k1 k2 wd, R k1 k2 -> R (krm_watch k1 wd) (krm_watch k2 wd).
 
   Definition orel {A} (o1 o2 : outcome (A * kst * list raw)) : Prop :=
     match o1, o2 with
-    | Done (r1, k1, a1), Done (r2, k2, a2) => r1 = r2 /\ a1 = a2 /\ keq k1 k2
+    | Done (r1, k1, a1), Done (r2, k2, a2) => r1 = r2 /\ a1 = a2 /\ R k1 k2
     | Crash s1, Crash s2 => s1 = s2
     | _, _ => False
     end.
 
   Ltac ksolve := cbn; first [ assumption | reflexivity | (split; [reflexivity | split; [reflexivity | assumption]]) | (split; [reflexivity | assumption]) | (split; assumption) ].
 
-  Lemma kadd_watch_keq k1 k2 t p m : keq k1 k2 ->
-    match kadd_watch k1 t p m, kadd_watch k2 t p m with
-    | Some (a, wa), Some (b, wb) => wa = wb /\ keq a b
-    | None, None => True
-    | _, _ => False
-    end.
-  Proof.
-    intros (A & B & D). unfold kadd_watch, watch_of_ino. rewrite A. destruct (flookup p t) as [e|]; [|exact I].
-    destruct (find _ (k_watches k2)) as [w0|]; (split; [congruence|]); unfold keq; cbn; repeat split; congruence.
-  Qed.
-
-  Lemma add_watch_keq r k1 k2 t p : keq k1 k2 ->
+  Lemma add_watch_keq r k1 k2 t p : R k1 k2 ->
     match add_watch C r k1 t p, add_watch C r k2 t p with
-    | Some (ra, a, wa), Some (rb, b, wb) => ra = rb /\ wa = wb /\ keq a b
+    | Some (ra, a, wa), Some (rb, b, wb) => ra = rb /\ wa = wb /\ R a b
     | None, None => True
     | _, _ => False
     end.
   Proof.
     intros E. unfold add_watch. destruct (mem_nat (calls r) (c_faults C)); [exact I|].
-    assert (H := kadd_watch_keq k1 k2 t p (c_mask C) E).
+    assert (H := R_add k1 k2 t p (c_mask C) E).
     destruct (kadd_watch k1 t p (c_mask C)) as [[a wa]|], (kadd_watch k2 t p (c_mask C)) as [[b wb]|]; try contradiction; [|exact I].
     destruct H as [-> H]. split; [reflexivity|]. split; [reflexivity | exact H].
   Qed.
 
-  Lemma sim_dirs_keq t rt ds : forall r k1 k2 acc, keq k1 k2 ->
+  Lemma sim_dirs_keq t rt ds : forall r k1 k2 acc, R k1 k2 ->
     let '(ra, a, xa) := sim_dirs C r k1 t rt ds acc in let '(rb, b, xb) := sim_dirs C r k2 t rt ds acc in
-    ra = rb /\ xa = xb /\ keq a b.
+    ra = rb /\ xa = xb /\ R a b.
   Proof.
     induction ds as [|d ds IH]; intros r k1 k2 acc E; cbn [sim_dirs]; [ksolve|].
     assert (H := add_watch_keq r k1 k2 t (join rt d) E).
@@ -384,7 +378,7 @@ Section Out.
     - now apply IH.
   Qed.
 
-  Lemma simulate_keq t wk : forall r k1 k2 acc, keq k1 k2 ->
+  Lemma simulate_keq t wk : forall r k1 k2 acc, R k1 k2 ->
     orel (simulate C r k1 t wk acc) (simulate C r k2 t wk acc).
   Proof.
     induction wk as [|[[rt ds] fls] wk IH]; intros r k1 k2 acc E; cbn [simulate]; [cbn; ksolve|].
@@ -393,8 +387,8 @@ Section Out.
     destruct H as (-> & -> & H). destruct (sim_files C rb rt fls xb); [now apply IH | reflexivity].
   Qed.
 
-  Lemma add_dirs_keq t ps : forall r k1 k2, keq k1 k2 ->
-    fst (add_dirs C r k1 t ps) = fst (add_dirs C r k2 t ps) /\ keq (snd (add_dirs C r k1 t ps)) (snd (add_dirs C r k2 t ps)).
+  Lemma add_dirs_keq t ps : forall r k1 k2, R k1 k2 ->
+    fst (add_dirs C r k1 t ps) = fst (add_dirs C r k2 t ps) /\ R (snd (add_dirs C r k1 t ps)) (snd (add_dirs C r k2 t ps)).
   Proof.
     induction ps as [|p ps IH]; intros r k1 k2 E; cbn [add_dirs]; [now split|].
     assert (H := add_watch_keq r k1 k2 t p E).
@@ -403,31 +397,25 @@ Section Out.
     - now split.
   Qed.
 
-  Lemma krm_watch_keq k1 k2 wd : keq k1 k2 -> keq (krm_watch k1 wd) (krm_watch k2 wd).
-  Proof.
-    intros (A & B & D). destruct (krm_watches_eq k1 wd) as (A1 & B1 & D1 & _). destruct (krm_watches_eq k2 wd) as (A2 & B2 & D2 & _).
-    repeat split; congruence.
-  Qed.
-
-  Lemma forget_tree_keq p keys : forall r k1 k2, keq k1 k2 ->
-    fst (forget_tree keys p r k1) = fst (forget_tree keys p r k2) /\ keq (snd (forget_tree keys p r k1)) (snd (forget_tree keys p r k2)).
+  Lemma forget_tree_keq p keys : forall r k1 k2, R k1 k2 ->
+    fst (forget_tree keys p r k1) = fst (forget_tree keys p r k2) /\ R (snd (forget_tree keys p r k1)) (snd (forget_tree keys p r k2)).
   Proof.
     induction keys as [|[q0 y] keys IH]; intros r k1 k2 E; cbn [forget_tree]; [now split|].
     destruct (beqb q0 p || starts (p ++ [sep]) q0); [|now apply IH].
     destruct (alookup beqb q0 (wfp r)) as [wd|]; [|now apply IH].
     destruct (alookup N.eqb wd (pfw r)) as [q'|]; [|now apply IH].
-    destruct (beqb q' q0); [|now apply IH]. apply IH. now apply krm_watch_keq.
+    destruct (beqb q' q0); [|now apply IH]. apply IH. now apply R_rm.
   Qed.
 
-  Lemma settle_pending_keq r k1 k2 e : keq k1 k2 ->
-    fst (settle_pending C r k1 e) = fst (settle_pending C r k2 e) /\ keq (snd (settle_pending C r k1 e)) (snd (settle_pending C r k2 e)).
+  Lemma settle_pending_keq r k1 k2 e : R k1 k2 ->
+    fst (settle_pending C r k1 e) = fst (settle_pending C r k2 e) /\ R (snd (settle_pending C r k1 e)) (snd (settle_pending C r k2 e)).
   Proof.
     intros E. unfold settle_pending. destruct (c_fix_moveout C); [|now split]. destruct (pend r) as [[c p]|]; [|now split].
     destruct (is_moved_to (k_mask e) && N.eqb (k_cookie e) c && amem N.eqb (k_wd e) (pfw r)); [now split|].
     now apply forget_tree_keq.
   Qed.
 
-  Lemma read_one_body_keq t r k1 k2 acc e : keq k1 k2 ->
+  Lemma read_one_body_keq t r k1 k2 acc e : R k1 k2 ->
     orel (read_one_body C t (r, k1, acc) e) (read_one_body C t (r, k2, acc) e).
   Proof.
     intros E. unfold read_one_body. destruct (alookup N.eqb (k_wd e) (pfw r)) as [wp|].
@@ -438,7 +426,7 @@ Section Out.
     destruct (add_dirs C r k2 t (sp :: walk_dirs t sp)) as [rdb kb] eqn:Eb. cbn [fst snd] in HAD. destruct HAD as [-> HAD].
     (* the first part yields the same reader state and event, and related kernels *)
     match goal with |- orel (match ?X1 with pair _ _ => _ end) (match ?X2 with pair _ _ => _ end) =>
-      assert (HX : fst (fst X1) = fst (fst X2) /\ snd X1 = snd X2 /\ keq (snd (fst X1)) (snd (fst X2))) end.
+      assert (HX : fst (fst X1) = fst (fst X2) /\ snd X1 = snd X2 /\ R (snd (fst X1)) (snd (fst X2))) end.
     { destruct (is_moved_from (k_mask e)); [ksolve|]. destruct (is_moved_to (k_mask e)); [|ksolve].
       destruct (alookup N.eqb (k_cookie e) (mvf r)) as [ms|].
       - destruct (alookup beqb ms (wfp r)); [ksolve|].
@@ -455,14 +443,14 @@ Section Out.
     - cbn. ksolve.
   Qed.
 
-  Lemma read_one_keq t r k1 k2 acc e : keq k1 k2 -> orel (read_one C t (r, k1, acc) e) (read_one C t (r, k2, acc) e).
+  Lemma read_one_keq t r k1 k2 acc e : R k1 k2 -> orel (read_one C t (r, k1, acc) e) (read_one C t (r, k2, acc) e).
   Proof.
     intros E. unfold read_one. assert (H := settle_pending_keq r k1 k2 e E).
     destruct (settle_pending C r k1 e) as [ra ka], (settle_pending C r k2 e) as [rb kb]. cbn [fst snd] in H.
     destruct H as [-> H]. now apply read_one_body_keq.
   Qed.
 
-  Lemma read_batch_keq t b : forall r k1 k2 acc, keq k1 k2 ->
+  Lemma read_batch_keq t b : forall r k1 k2 acc, R k1 k2 ->
     orel (read_batch C t (r, k1, acc) b) (read_batch C t (r, k2, acc) b).
   Proof.
     induction b as [|e b IH]; intros r k1 k2 acc E; cbn [read_batch]; [cbn; ksolve|].
@@ -472,6 +460,7 @@ Section Out.
     - destruct H as (-> & -> & H). now apply IH.
     - now subst.
   Qed.
+  End Frame.
 
   (* ---------------------------------------------------------------- dead descriptors stay dead *)
   Section Dead.
@@ -632,4 +621,87 @@ Section Out.
       eapply IH; [|exact Hr]. eapply read_one_dinv; eassumption.
     Qed.
   End Dead.
+
+  (* ---------------------------------------------------------------- _forget_tree as a list of inotify_rm_watch calls *)
+  Lemma forget_tree_fold p keys : forall r, exists wds rF,
+    (forall k, forget_tree keys p r k = (rF, fold_left krm_watch wds k)) /\
+    (forall wd, In wd wds -> exists x, blw p x = true /\ In x (map fst keys) /\ alookup beqb x (wfp r) = Some wd).
+  Proof.
+    induction keys as [|[q0 y] keys IH]; intros r.
+    - exists [], r. split; [reflexivity | intros wd []].
+    - cbn [forget_tree map fst]. change (beqb q0 p || starts (p ++ [sep]) q0) with (blw p q0).
+      destruct (blw p q0) eqn:Eb.
+      2:{ destruct (IH r) as (wds & rF & H1 & H2). exists wds, rF. split; [exact H1|].
+          intros wd Hw. destruct (H2 wd Hw) as (x & A & B & D). exists x. split; [exact A|]. split; [now right | exact D]. }
+      destruct (alookup beqb q0 (wfp r)) as [wd0|] eqn:Ew.
+      2:{ destruct (IH r) as (wds & rF & H1 & H2). exists wds, rF. split; [exact H1|].
+          intros wd Hw. destruct (H2 wd Hw) as (x & A & B & D). exists x. split; [exact A|]. split; [now right | exact D]. }
+      assert (Hsub : forall x wd, x <> q0 -> alookup beqb x (aremove beqb q0 (wfp r)) = Some wd -> alookup beqb x (wfp r) = Some wd)
+        by (intros x wd Hne Hx; now rewrite wrem_neq in Hx).
+      assert (Hrem : forall (r1 : rstate), wfp r1 = aremove beqb q0 (wfp r) ->
+                forall wds, (forall wd, In wd wds -> exists x, blw p x = true /\ In x (map fst keys) /\ alookup beqb x (wfp r1) = Some wd) ->
+                forall wd, In wd wds -> exists x, blw p x = true /\ (q0 = x \/ In x (map fst keys)) /\ alookup beqb x (wfp r) = Some wd).
+      { intros r1 E1 wds H2 wd Hw. destruct (H2 wd Hw) as (x & A & B & D). exists x. split; [exact A|]. split; [now right|].
+        rewrite E1 in D. destruct (bytes_eq_dec x q0) as [->|Hne]; [now rewrite wrem_eq in D | now apply Hsub]. }
+      destruct (alookup N.eqb wd0 (pfw r)) as [q'|].
+      + destruct (beqb q' q0).
+        * match goal with |- context [forget_tree keys p ?r1 _] => destruct (IH r1) as (wds & rF & H1 & H2); pose (rr := r1) end.
+          exists (wd0 :: wds), rF. split; [intros k; cbn [fold_left]; apply H1|].
+          intros wd [<-|Hw]; [exists q0; split; [exact Eb|]; split; [now left | exact Ew]|]. now apply (Hrem rr eq_refl wds H2).
+        * match goal with |- context [forget_tree keys p ?r1 _] => destruct (IH r1) as (wds & rF & H1 & H2); pose (rr := r1) end.
+          exists wds, rF. split; [exact H1|]. now apply (Hrem rr eq_refl wds H2).
+      + match goal with |- context [forget_tree keys p ?r1 _] => destruct (IH r1) as (wds & rF & H1 & H2); pose (rr := r1) end.
+        exists wds, rF. split; [exact H1|]. now apply (Hrem rr eq_refl wds H2).
+  Qed.
+
+  Definition keepf (wds : list N) (kw : kwatch) : bool := negb (DelayQueue.memN (kw_wd kw) wds).
+
+  Lemma memN_in x l : DelayQueue.memN x l = true <-> In x l.
+  Proof.
+    induction l as [|a l IH]; cbn; [split; [discriminate | intros []]|]. rewrite orb_true_iff, N.eqb_eq, IH. split; intros [H|H]; auto.
+  Qed.
+
+  Lemma fold_krm wds : forall k,
+    k_watches (fold_left krm_watch wds k) = filter (keepf wds) (k_watches k) /\
+    k_next_wd (fold_left krm_watch wds k) = k_next_wd k /\ k_next_cookie (fold_left krm_watch wds k) = k_next_cookie k /\
+    exists ig, k_queue (fold_left krm_watch wds k) = k_queue k ++ ig /\ Forall (fun a => In (k_wd a) wds) ig.
+  Proof.
+    induction wds as [|wd wds IH]; intros k; cbn [fold_left].
+    - repeat split. + unfold keepf. cbn. induction (k_watches k) as [|a l IHl]; [reflexivity | cbn; now rewrite <- IHl].
+      + exists []. now rewrite app_nil_r.
+    - destruct (IH (krm_watch k wd)) as (A & B & D & ig & E & F). destruct (krm_watches_eq k wd) as (A0 & B0 & D0 & ig0 & E0 & F0).
+      split; [|split; [congruence|split; [congruence|]]].
+      + rewrite A, A0, filter_filter. apply filter_ext. intros x. unfold keepf. cbn. now rewrite negb_orb.
+      + exists (ig0 ++ ig). split; [now rewrite E, E0, app_assoc|]. apply Forall_app. split.
+        * eapply Forall_impl; [|exact F0]. intros a ->. now left.
+        * eapply Forall_impl; [|exact F]. intros a Ha. now right.
+  Qed.
+
+  (* ---------------------------------------------------------------- the reader frame, instance: junk in front of the queue *)
+  Definition qextj (J : list kraw) (k1 k2 : kst) : Prop :=
+    qext J k1 k2 /\ forall a, In a J -> (k_wd a < k_next_wd k2)%N /\ forall kw, In kw (k_watches k2) -> kw_wd kw <> k_wd a.
+
+  Lemma qextj_add J k1 k2 t p m : qextj J k1 k2 ->
+    match kadd_watch k1 t p m, kadd_watch k2 t p m with
+    | Some (a, wa), Some (b, wb) => wa = wb /\ qextj J a b
+    | None, None => True
+    | _, _ => False
+    end.
+  Proof.
+    intros [(A & B & D & E) HJ]. unfold kadd_watch, watch_of_ino. rewrite A. destruct (flookup p t) as [e|]; [|exact I].
+    destruct (find _ (k_watches k2)) as [w0|] eqn:Ef.
+    - split; [reflexivity|]. split; [repeat split; cbn; congruence|]. intros a Ha. cbn. destruct (HJ a Ha) as [L Hn]. split; [exact L|].
+      intros kw Hin. apply in_map_iff in Hin as (x0 & <- & Hx0). destruct (N.eqb (kw_wd x0) (kw_wd w0)); cbn; now apply Hn.
+    - split; [congruence|]. split; [repeat split; cbn; congruence|]. intros a Ha. cbn. destruct (HJ a Ha) as [L Hn]. split; [lia|].
+      intros kw Hin. apply in_app_iff in Hin as [Hin|[<-|[]]]; [now apply Hn | cbn; lia].
+  Qed.
+
+  Lemma qextj_rm J k1 k2 wd : qextj J k1 k2 -> qextj J (krm_watch k1 wd) (krm_watch k2 wd).
+  Proof.
+    intros [(A & B & D & E) HJ]. unfold krm_watch. rewrite A. destruct (find _ (k_watches k2)) as [w0|] eqn:Ef; [|now split].
+    apply find_some in Ef as [Hw0 Ew0]. apply N.eqb_eq in Ew0.
+    split; [repeat split; cbn; try congruence|].
+    - rewrite E. apply kpush_qext. intros a Ha. cbn. destruct (HJ a Ha) as [_ Hn]. rewrite <- Ew0. intros Eq. exact (Hn w0 Hw0 (eq_sym Eq)).
+    - intros a Ha. cbn. destruct (HJ a Ha) as [L Hn]. split; [exact L|]. intros kw Hk. apply filter_In in Hk as [Hk _]. now apply Hn.
+  Qed.
 End Out.
